@@ -135,6 +135,39 @@ def families(seed, tier):
     for i, answer in enumerate(("accept", None) if tier == "quick" else ("accept", "reject", None, "accept")):
         add("second-inbound-while-validating", cfg(0, perturb=i % 3),
             [open_("X"), await_("Y", "asked"), await_("X", "answered", ms=15000), open_("X"), op("pump", ms=400)] + third(answer))
+    # a dial that this protocol did not start (or started and saw overtaken by an inbound connection) fails while the peer is
+    # connected: TransportManager broadcasts the DialFailure to every protocol, whatever state the peer is in there.
+    # D dials a dead address of O (tar pit) while disconnected, O connects to D first, the dial fails ~2 s (quic 5 s) later.
+    def fdf_prefix(d, o, known=False, block=False):
+        return [op("cut", block=block), await_("X", "down"), await_("Y", "down"), op("dialdead", ep=d, to=o, known=known)]
+
+    def fdf_connect(d, o):
+        return [op("dialdirect", ep=o, to=d), await_("X", "up"), await_("Y", "up")]
+    for i, (d, o) in enumerate((("X", "Y"), ("Y", "X")) * (1 if tier == "quick" else 3)):
+        pert = i % 3
+        # ... while D's outbound substream waits for O's validation
+        add("dialfail-while-negotiating", cfg(0, perturb=pert),
+            [policy(o, "manual"), policy(d, "accept")] + fdf_prefix(d, o) + fdf_connect(d, o) +
+            [open_(d), await_(o, "asked"), await_(d, "dialfail", p=o, ms=6000), op("pump", ms=150), val(o, "accept"),
+             await_(d, "answered", p=o), await_(o, "open", p=d, ms=3000), send(d, "s", 2), op("pump", ms=200)])
+        # ... while the stream is open: it must stay open
+        add("dialfail-while-open", cfg(0, perturb=pert, auto=((d,) if i % 2 else ())),
+            [policy(o, "accept"), policy(d, "accept")] + fdf_prefix(d, o) + fdf_connect(d, o) +
+            # (traffic keeps a QUIC connection alive: its idle timeout equals the time the dead dial needs to fail)
+            [open_(d), await_(d, "open", p=o), await_(o, "open", p=d)] + [x for _ in range(7) for x in (send(d, "s", 1), send(o, "a", 1), op("pump", ms=800))] +
+            [await_(d, "dialfail", p=o, ms=1000), op("pump", ms=400), send(d, "s", 2), send(o, "a", 2), op("pump", ms=300)], bys=(i == 0))
+        # ... the dial was started by the notification protocol itself (open while disconnected, dialing enabled): the
+        # working route is blocked, the dead address keeps the dial pending, O connects meanwhile
+        add("own-dial-overtaken", cfg(0, perturb=pert, dial=True),
+            [policy(o, "manual"), policy(d, "accept")] + fdf_prefix(d, o, known=True, block=True) + [open_(d), op("pump", ms=100)] +
+            fdf_connect(d, o) + [await_(o, "asked", ms=4000), await_(d, "dialfail", p=o, ms=2500), op("pump", ms=150), val(o, "accept"),
+                                 await_(d, "answered", p=o), op("pump", ms=200)])
+        # ... while D holds an unanswered validation of a connection that is gone (ValidationPending), then a new connection
+        add("dialfail-while-validation-pending", cfg(0, perturb=pert),
+            [policy(d, "manual"), open_(o), await_(d, "asked"), op("cut"), await_("X", "down"), await_("Y", "down"),
+             op("dialdead", ep=d, to=o), await_(d, "dialfail", p=o, ms=6000), op("pump", ms=100), op("dialdirect", ep=d, to=o),
+             await_("X", "up"), await_("Y", "up"), op("settle", quiet=200, ms=2000), val(d, "accept", wait=0), policy("X", "accept"),
+             policy("Y", "accept"), op("pump", ms=200), open_(o), await_(o, "answered", p=d), op("pump", ms=200)])
     # dialing on demand / dialing disabled
         add("dial-on-open", cfg(0, dial=True, perturb=1), [policy("X", "accept"), policy("Y", "accept"), op("cut"), await_("X", "down"), await_("Y", "down"),
                                                            open_("X"), await_("X", "open", ms=10000)])
@@ -240,7 +273,12 @@ def random_script(rng, idx, seed):
             if not cutdone or rng.random() < 0.3:
                 steps.append(op("cut"))
                 cutdone = True
-                if rng.random() < 0.7:
+                q = rng.random()
+                if q < 0.2:
+                    d = rng.choice(EPS)
+                    steps += [await_("X", "down", ms=3000), await_("Y", "down", ms=3000), op("dialdead", ep=d, to=other(d)),
+                              op("pump", ms=rng.choice([0, 50])), op("dialdirect", ep=other(d), to=d), await_("X", "up", ms=4000), await_("Y", "up", ms=4000)]
+                elif q < 0.75:
                     steps += [op("pump", ms=rng.choice([0, 50, 400])), op("dial"), await_("X", "up", ms=4000), await_("Y", "up", ms=4000)]
         else:
             steps.append(send(e, "s", 3, "over" if rng.random() < 0.5 else "max"))
@@ -308,11 +346,11 @@ def fixed_tags():
     return {tag for sig, tag in SIG_TAG.items() if sig not in known}
 
 
-def mc_consts(auto=(), dial=False, mo=1, mcl=1, cut=0, rec=0, fail=0, sub=4, stall=0, tags=None, moy=None, mut="none", fixed=None, early=False):
+def mc_consts(auto=(), dial=False, mo=1, mcl=1, cut=0, rec=0, fail=0, sub=4, stall=0, tags=None, moy=None, mut="none", fixed=None, early=False, fdf=0):
     fixed = fixed_tags() if fixed is None else set(fixed)
     tags = (TAGS if tags is None else set(tags)) - fixed
     return {"AutoSet": set(auto), "Dial": dial, "MaxOpen": mo, "MaxOpenY": mo if moy is None else moy, "MaxClose": mcl, "MaxCut": cut, "MaxRec": rec, "MaxFail": fail,
-            "MaxSub": sub, "MaxStall": stall, "KnownTags": set(tags), "Mut": mut, "Fixed": fixed, "EarlyVal": early}
+            "MaxSub": sub, "MaxStall": stall, "MaxFDF": fdf, "KnownTags": set(tags), "Mut": mut, "Fixed": fixed, "EarlyVal": early}
 
 
 def split_endpoints(lines):
